@@ -222,10 +222,13 @@ def _parse_assoc(t, body):
     r = _R(body, PDU_NAMES[t])
     proto = r.u16()
     r.take(2)
-    called = _text(r.take(16), 'called AE').strip(' \0')
-    calling = _text(r.take(16), 'calling AE').strip(' \0')
+    called_raw = bytes(r.take(16))
+    calling_raw = bytes(r.take(16))
+    called = _text(called_raw, 'called AE').strip(' \0')
+    calling = _text(calling_raw, 'calling AE').strip(' \0')
     r.take(32)
     d = {'type': t, 'kind': PDU_NAMES[t], 'protocol': proto, 'called': called, 'calling': calling,
+         'called_raw': called_raw, 'calling_raw': calling_raw,
          'app_context': None, 'contexts': [], 'user_info': None, 'item_order': []}
     for it, b in _items(r, 'assoc items'):
         d['item_order'].append(it)
